@@ -68,7 +68,7 @@ def strategy(tier, phase):
         "align_threshold": st.sampled_from([0, 64, 1000, 1048576]), "shard": st.sampled_from([None, None, 64, 300, 5000, 100000]),
         "workers": st.sampled_from([None, 1, 2, 4]), "inflight": st.sampled_from([1, 100, 4096, 2**26]),
         "backend": st.sampled_from([0, 0, 1]), "dest": st.integers(0, len(DESTS) - 1), "stem": st.integers(0, len(STEMS) - 1),
-        "fault": st.sampled_from([0, 0, 0, 0, 1, 2, 3]), "resave": st.sampled_from([None, None, 0, 1, 2, 3]),
+        "fault": st.sampled_from([0, 0, 0, 0, 1, 2, 3]), "resave": st.sampled_from([None, None, 0, 1, 2, 3, 4, 5, 7]),
     })
     return st.fixed_dictionaries({"inits": st.lists(spec, min_size=1, max_size=8), "opts": opts})
 
@@ -420,6 +420,16 @@ def _execute_main(case):
         if opts.get("resave") is not None and not fails:
             alt = [None, 64, 300, 5000][opts["resave"] % 4]
             exc2 = None
+            if opts["resave"] >= 4:
+                # ... after the whole model directory was moved and the loaded model re-based onto the new place
+                moved = workdir + "_moved"
+                os.rename(workdir, moved)
+                os.makedirs(workdir)  # (so that the clean-up below finds it)
+                mpath = os.path.join(moved, os.path.relpath(mpath, workdir))
+                ir.external_data.set_base_dir(loaded.graph, os.path.dirname(mpath))
+                for f_ in loaded.functions.values():
+                    ir.external_data.set_base_dir(f_.graph, os.path.dirname(mpath))
+                classes.append("directory_moved_and_rebased_before_saving_again")
             try:
                 if backend == 0:
                     ir.save(loaded, mpath, external_data=dest, size_threshold_bytes=opts["threshold"], max_shard_size_bytes=alt)
@@ -448,6 +458,7 @@ def _execute_main(case):
         return dict(failures=[("harness-or-library-crash/" + type(e).__name__, traceback.format_exc()[-600:])], nontrivial=False, classes=["crash"])
     finally:
         shutil.rmtree(workdir, ignore_errors=True)
+        shutil.rmtree(workdir + "_moved", ignore_errors=True)
     return dict(failures=_dedupe(fails), nontrivial=nontrivial, classes=classes)
 
 
